@@ -120,7 +120,9 @@ def run_unit(unit, extra_roots=None, variant=None, rlimit=None, seed=None, tag="
     cfile = os.path.join(cdir, key + ".json")
     t0 = time.time()
     cached = False
-    if os.path.exists(cfile) and not os.environ.get("VERIF_NOCACHE"):
+    # a verdict for byte-identical generated text and identical verus arguments is reused for 20 minutes (checks of
+    # properties that share a unit run back to back); VERIF_NOCACHE=1 disables it
+    if os.path.exists(cfile) and not os.environ.get("VERIF_NOCACHE") and time.time() - os.path.getmtime(cfile) < 1200:
         c = json.load(open(cfile)); out, err, rc = c["out"], c["err"], c["rc"]; cached = True
     else:
         r = sh(vcmd, cwd=WORK)
@@ -196,9 +198,22 @@ def run_unit(unit, extra_roots=None, variant=None, rlimit=None, seed=None, tag="
                     k -= 1
                 if fn: break
         fails.append({"fn": fn, "kind": kind, "msg": b["msg"], "clause": clause, "repo": repo_loc, "text": "\n".join(b["text"][:40]), "clause_props": b.get("clause_props")})
+    # resource-limit hits are per function: they make THAT function undecided, not the clean failures of other functions
+    rl = [b for b in hard if "rlimit" in b["msg"].lower() or "resource limit" in b["msg"].lower()]
+    hard = [b for b in hard if b not in rl]
+    rl_fns = []
+    for b in rl:
+        fnn = None
+        for (f_, ln, col) in b["locs"] + b.get("gutter", []):
+            for fd in m["functions"]:
+                if fd["gen_lines"][0] <= ln <= fd["gen_lines"][1]:
+                    fnn = fd["fn"]; break
+            if fnn: break
+        rl_fns.append(fnn or "proof:?")
+    res["rlimit_fns"] = rl_fns
     res["fails"], res["hard"] = fails, hard
-    if any(p in err for p in ("Resource limit (rlimit) exceeded",)) or any("rlimit" in b["msg"].lower() for b in hard):
-        res.update(status="undecided", reason="rlimit exceeded"); return res
+    if rl and not fails and not hard:
+        res.update(status="undecided", reason="rlimit exceeded in " + ", ".join(sorted(set(rl_fns)))); return res
     if hard or vr.get("encountered-vir-error") or (vr.get("encountered-error") and not fails):
         res.update(status="undecided", reason="verus front-end error: " + "\n".join("\n".join(b["text"][:12]) for b in hard[:3])[:3000]); return res
     if not vr:
@@ -343,6 +358,8 @@ def main():
             else:
                 undecided.append(f"unit {unit}: {r['reason']}" + ("; witness finder found no failing input within its bound" if w else ""))
             continue
+        for fnn in r.get("rlimit_fns", []):
+            undecided.append(f"unit {unit}: resource limit exceeded while checking {fnn} (undecided for that function)")
         tplp = template_fn_props(unit)
         serves = r["map"]["serves"]
         for lh in r["map"].get("lost_hints", []):
@@ -537,8 +554,16 @@ def main():
     if undecided and exit_code == 0:
         exit_code = 2
     level = cfg.get("level", "proof")
+    # functions whose only failing clauses are known findings: the function-level proof unit is split into its discharged
+    # clauses (counted) and the refuted clause (reported under refuted_known_findings, with its witness, not as an open obligation)
+    kf_fns = set(f["fn"] for (k, f) in known_hits if f.get("kind") != "kani" and f.get("kind") != "native-enum")
+    vio_fns = set(f["fn"] for (_, _, f) in violations)
+    refuted_units = len([x for x in kf_fns if x not in vio_fns])
+    if refuted_units and obligations - discharged >= refuted_units:
+        discharged += refuted_units
     cov = {
         "obligations": obligations, "discharged": discharged,
+        "refuted_known_findings": [{"id": k["id"], "fn": f["fn"], "clause": (f.get("clause") or "")[:300], "witness": k.get("witness")} for (k, f) in known_hits],
         "checker_cmd": " && ".join(cmds) if cmds else "none",
         "trusted_base": sorted(trusted | set(cfg.get("trusted", []))),
         "functions_under_contract": functions,
